@@ -309,6 +309,27 @@ def install(eng):
     def _print(eng, *a, **k):
         return None
 
+    @model("builtins.getattr")
+    def _getattr(eng, o, name, *default):
+        if not isinstance(name, str):
+            raise Unsupported("getattr with a symbolic attribute name")
+        fr = I.Frame(eng, None, I.Env(), None, None, "<getattr>")
+        try:
+            return fr.getattr(o, name)
+        except I.PyRaise as e:
+            if e.exc_name == "AttributeError" and default:
+                return default[0]
+            raise
+
+    @model("functools.partial")
+    def _partial(eng, f, *a, **k):
+        return I.Model("partial", lambda eng_, *b, **kb: eng_.call(f, list(a) + list(b), {**k, **kb}))
+
+    @model("builtins.slice", "ctor.slice")
+    def _slice(eng, *a):
+        a = [M.unwrap(x) for x in a]
+        return slice(*a)
+
     @model("builtins.hasattr")
     def _hasattr(eng, o, name):
         if isinstance(o, I.Obj):
@@ -680,6 +701,18 @@ def install(eng):
             return I.Arr(r.shape, r.fn, r.dtype)   # copy
         return r
 
+    @model("ndarray.tolist")
+    def _tolist(eng, a):
+        if any(T.is_sym(d) and T.is_sym(T.simp(d)) for d in a.shape):
+            raise Unsupported("tolist of an array of symbolic shape")
+        shape = [int(T.conc(T.simp(d))) if T.is_sym(d) else int(d) for d in a.shape]
+
+        def rec(prefix, dims):
+            if not dims:
+                return a.fn(*prefix)
+            return [rec(prefix + [k], dims[1:]) for k in range(dims[0])]
+        return rec([], shape)
+
     @model("ndarray.copy", "numpy.copy")
     def _copy(eng, a):
         return I.Arr(a.shape, a.fn, a.dtype)
@@ -696,6 +729,51 @@ def install(eng):
             r = I.Arr((1,), lambda i: f(), a.dtype)
             return r
         return a
+
+    @model("numpy.atleast_2d")
+    def _atleast_2d(eng, a):
+        a = _asarray(eng, a)
+        if a.ndim == 0:
+            f = a.fn
+            return I.Arr((1, 1), lambda i, j: f(), a.dtype)
+        if a.ndim == 1:
+            f = a.fn
+            r = I.Arr((1, a.shape[0]), lambda i, j: f(j), a.dtype)
+            M.register_view(r, a.base if a.base is not None else a)
+            return r
+        return a
+
+    @model("numpy.cumsum", "ndarray.cumsum")
+    def _cumsum(eng, a, axis=None, **kw):
+        a = M.unwrap(a)
+        if type(a).__name__ == "SymList" and a.scalar:
+            it_ = a.item
+            probe = M.unwrap(it_(T.fresh("probe", "int")))
+            a = I.Arr((a.length,), lambda i: M.unwrap(it_(i)), M.scalar_dtype(probe))
+        a = _asarray(eng, a)
+        if a.ndim != 1 or axis not in (None, 0, -1):
+            raise Unsupported("cumsum of a multi-dimensional array")
+        n = a.shape[0]
+        nc = T.simp(n) if T.is_sym(n) else n
+        f = a.fn
+        if not T.is_sym(nc) and nc <= 64:
+            def fn(k):
+                if T.is_sym(k):
+                    return M.select_const(k, [lambda q=q: M.fold("sum", [f(t) for t in range(q + 1)], a.dtype) for q in range(nc)])
+                return M.fold("sum", [f(t) for t in range(k + 1)], a.dtype)
+            return I.Arr((nc,), fn, a.dtype)
+        # symbolic length: out[k] = sum_{t <= k} a[t], one reduction site with the position as free index
+        site = M.new_reduction_site("sum", a.dtype, 1, 0, lambda oidx: oidx[0], lambda oidx, t: f(t))
+        return I.Arr((n,), lambda k: site.apply((k,)), "int" if a.dtype in ("int", "bool") else a.dtype)
+
+    @model("numpy.tril_indices")
+    def _tril_indices(eng, n, k=0, m=None):
+        n = M.unwrap(n)
+        if T.is_sym(n) or m is not None:
+            raise Unsupported("tril_indices of a symbolic size")
+        import numpy as _np
+        r, c = _np.tril_indices(int(n), int(k))
+        return (M.array_from_seq(eng, [int(x) for x in r]), M.array_from_seq(eng, [int(x) for x in c]))
 
     @model("ndarray.reshape", "numpy.reshape")
     def _reshape(eng, a, *shape, order="C"):
